@@ -72,9 +72,6 @@ void vp_clear_exception(void);
 #define VP_OVERFLOW_minus(a, b) __CPROVER_overflow_minus(a, b)
 #define VP_OVERFLOW_mult(a, b) __CPROVER_overflow_mult(a, b)
 /* __CPROVER_POINTER_OFFSET is unsigned in CBMC 6: one-before-the-start (the library's `--cp >= begin` idiom) must compare as -1 */
-#ifndef VP_OBJECT_BITS
-#define VP_OBJECT_BITS 8   /* cbmc --object-bits (default 8): the offset field has 64-8 bits */
-#endif
 /* signed offset, sign-extended from the offset field: CBMC yields 2^56-1 or 2^64-1 for one-before-the-start depending on whether the
  * expression simplifier or the bit-level encoding evaluates it (both measured) */
 #define VP_POFF(p) (((int64_t)((uint64_t)__CPROVER_POINTER_OFFSET(p) << VP_OBJECT_BITS)) >> VP_OBJECT_BITS)
@@ -85,8 +82,11 @@ void vp_clear_exception(void);
  * not comparable under this model (the translated code never does that: checked by the native replay of every counterexample). */
 #define VP_PTOI(p) ((uint64_t)VP_POFF(p))
 #define VP_ABORT(m) do { __CPROVER_assert(0, m); __CPROVER_assume(0); } while (0)
-extern uint64_t vp_blk_size[256];   /* logical size per CBMC object number (default --object-bits 8) */
-#define VP_LOGICAL_SIZE(p) (vp_blk_size[(uint8_t)__CPROVER_POINTER_OBJECT(p)])
+#ifndef VP_OBJECT_BITS
+#define VP_OBJECT_BITS 8   /* cbmc --object-bits (default 8): the offset field has 64-8 bits */
+#endif
+extern uint64_t vp_blk_size[1 << VP_OBJECT_BITS];   /* logical size per CBMC object number */
+#define VP_LOGICAL_SIZE(p) (vp_blk_size[__CPROVER_POINTER_OBJECT(p) & ((1 << VP_OBJECT_BITS) - 1)])
 #define VP_ACCESS_OK(p, s) (!__CPROVER_DYNAMIC_OBJECT(p) || (VP_POFF(p) >= 0 && (uint64_t)VP_POFF(p) + (uint64_t)(s) <= VP_LOGICAL_SIZE(p)))
 #define VP_ACCESS(p, s) __CPROVER_assert(VP_ACCESS_OK((p), (s)), "memory access stays inside the bounds of its heap block")
 #else
